@@ -148,6 +148,10 @@ def read_all(text):
                     pos[0] += 1
                     return lst
                 lst.append(read())
+                x = lst[-1]
+                if len(lst) > 1 and isinstance(x, Atom) and x.kind == "sym" and x.val in RESERVED:
+                    # a reserved word is not a symbol: it may only open a list (|let| is a symbol, let is not)
+                    raise IllFormed("reserved-word-as-symbol", "reserved word %r used as a symbol" % x.val)
         if t == ")":
             raise IllFormed("syntax", "unbalanced parenthesis")
         return t
@@ -233,7 +237,7 @@ class Elab(object):
         return None
 
     def check_new_name(self, n):
-        if n in THEORY_SYMBOLS or n in RESERVED:
+        if n in THEORY_SYMBOLS:
             raise IllFormed("redeclaration", "%r is a predefined symbol" % n)
         if self.lookup_decl(n) is not None or self.lookup_def(n) is not None:
             raise IllFormed("redeclaration", "symbol %r declared twice" % n)
